@@ -14,6 +14,7 @@ translated conditions over `Int`; `len(strconv.Itoa(n))` is `GuardFns.itoaLen`
 import Iso8583.Gen.GuardsPrefix
 import Iso8583.Model.Prefix
 import Iso8583.Lemmas.GuardFns
+import Iso8583.Lemmas.GuardTactics
 
 namespace Iso8583.GuardsPrefix
 open Iso8583 Iso8583.Gen.Guards Iso8583.GuardFns Pref
@@ -28,88 +29,173 @@ theorem cast_lt (a b : Nat) : ((a : Int) < (b : Int)) ↔ a < b := by omega
 
 /-! ### decimal prefixers: EncodeLength -/
 
-theorem dec_guards_iff (guards : Int → Int → Int → List Bool) (maxLen n d : Nat) (hd : 1 ≤ d)
-    (hg : guards maxLen n d = [decide ((n : Int) > (maxLen : Int)), decide (itoaLen (n : Int) > (d : Int))]) :
-    (guards maxLen n d).any id = true ↔ (n > maxLen ∨ n ≥ 10 ^ d) := by
-  rw [hg]
-  simp only [List.any_cons, List.any_nil, id, Bool.or_false, Bool.or_eq_true, decide_eq_true_eq,
-    cast_gt, itoaLen_gt_iff n d hd]
+theorem ascii_enc_iff (maxLen n d : Nat) (hd : 1 ≤ d) :
+    (ascii_EncodeLength_guards maxLen n d).any id = true ↔ (n > maxLen ∨ n ≥ 10 ^ d) := by
+  have hi := itoaLen_gt_iff n d hd
+  unfold ascii_EncodeLength_guards
+  guards_to_prop
+  constructor
+  · intro h
+    rcases (show ((n : Int) > (maxLen : Int)) ∨ (itoaLen (n : Int) > (d : Int)) by omega) with h1 | h1
+    · exact Or.inl (by omega)
+    · exact Or.inr (hi.mp h1)
+  · intro h
+    rcases h with h | h
+    · have : (n : Int) > (maxLen : Int) := by omega
+      omega
+    · have := hi.mpr h
+      omega
 
-/-- `asciiVarPrefixer.EncodeLength` -/
+/-- `ascii` variable-length prefixer, `EncodeLength` -/
 theorem ascii_encodeLength_guarded (maxLen n d : Nat) (hd : 1 ≤ d) :
     encodeLength (.var .ascii d) maxLen n =
       if (ascii_EncodeLength_guards maxLen n d).any id then .err else .ok (decString d n) := by
-  have h := dec_guards_iff ascii_EncodeLength_guards maxLen n d hd rfl
+  have h := ascii_enc_iff maxLen n d hd
   simp only [encodeLength]
   by_cases a : n > maxLen
-  · simp [a, h.mpr (Or.inl a)]
+  · rw [if_pos a, if_pos (h.mpr (Or.inl a))]
   · by_cases b : n ≥ 10 ^ d
-    · simp [a, b, h.mpr (Or.inr b)]
+    · rw [if_neg a, if_pos b, if_pos (h.mpr (Or.inr b))]
     · have : ¬ ((ascii_EncodeLength_guards maxLen n d).any id = true) := fun hh => by
         rcases h.mp hh with x | x <;> contradiction
-      simp [a, b, this]
+      rw [if_neg a, if_neg b, if_neg this]
 
-/-- `ebcdicVarPrefixer.EncodeLength` (the remaining error is that of the EBCDIC encoder) -/
+theorem ebcdic_enc_iff (maxLen n d : Nat) (hd : 1 ≤ d) :
+    (ebcdic_EncodeLength_guards maxLen n d).any id = true ↔ (n > maxLen ∨ n ≥ 10 ^ d) := by
+  have hi := itoaLen_gt_iff n d hd
+  unfold ebcdic_EncodeLength_guards
+  guards_to_prop
+  constructor
+  · intro h
+    rcases (show ((n : Int) > (maxLen : Int)) ∨ (itoaLen (n : Int) > (d : Int)) by omega) with h1 | h1
+    · exact Or.inl (by omega)
+    · exact Or.inr (hi.mp h1)
+  · intro h
+    rcases h with h | h
+    · have : (n : Int) > (maxLen : Int) := by omega
+      omega
+    · have := hi.mpr h
+      omega
+
+/-- `ebcdic` variable-length prefixer, `EncodeLength` -/
 theorem ebcdic_encodeLength_guarded (maxLen n d : Nat) (hd : 1 ≤ d) :
     encodeLength (.var .ebcdic d) maxLen n =
       if (ebcdic_EncodeLength_guards maxLen n d).any id then .err else Enc.encode .ebcdic (decString d n) := by
-  have h := dec_guards_iff ebcdic_EncodeLength_guards maxLen n d hd rfl
+  have h := ebcdic_enc_iff maxLen n d hd
   simp only [encodeLength]
   by_cases a : n > maxLen
-  · simp [a, h.mpr (Or.inl a)]
+  · rw [if_pos a, if_pos (h.mpr (Or.inl a))]
   · by_cases b : n ≥ 10 ^ d
-    · simp [a, b, h.mpr (Or.inr b)]
+    · rw [if_neg a, if_pos b, if_pos (h.mpr (Or.inr b))]
     · have : ¬ ((ebcdic_EncodeLength_guards maxLen n d).any id = true) := fun hh => by
         rcases h.mp hh with x | x <;> contradiction
-      simp [a, b, this]
+      rw [if_neg a, if_neg b, if_neg this]
 
-/-- `ebcdic1047Prefixer.EncodeLength` -/
+theorem ebcdic1047_enc_iff (maxLen n d : Nat) (hd : 1 ≤ d) :
+    (ebcdic1047_EncodeLength_guards maxLen n d).any id = true ↔ (n > maxLen ∨ n ≥ 10 ^ d) := by
+  have hi := itoaLen_gt_iff n d hd
+  unfold ebcdic1047_EncodeLength_guards
+  guards_to_prop
+  constructor
+  · intro h
+    rcases (show ((n : Int) > (maxLen : Int)) ∨ (itoaLen (n : Int) > (d : Int)) by omega) with h1 | h1
+    · exact Or.inl (by omega)
+    · exact Or.inr (hi.mp h1)
+  · intro h
+    rcases h with h | h
+    · have : (n : Int) > (maxLen : Int) := by omega
+      omega
+    · have := hi.mpr h
+      omega
+
+/-- `ebcdic1047` variable-length prefixer, `EncodeLength` -/
 theorem ebcdic1047_encodeLength_guarded (maxLen n d : Nat) (hd : 1 ≤ d) :
     encodeLength (.var .ebcdic1047 d) maxLen n =
-      if (ebcdic1047_EncodeLength_guards maxLen n d).any id then .err
-      else Enc.encode .ebcdic1047 (decString d n) := by
-  have h := dec_guards_iff ebcdic1047_EncodeLength_guards maxLen n d hd rfl
+      if (ebcdic1047_EncodeLength_guards maxLen n d).any id then .err else Enc.encode .ebcdic1047 (decString d n) := by
+  have h := ebcdic1047_enc_iff maxLen n d hd
   simp only [encodeLength]
   by_cases a : n > maxLen
-  · simp [a, h.mpr (Or.inl a)]
+  · rw [if_pos a, if_pos (h.mpr (Or.inl a))]
   · by_cases b : n ≥ 10 ^ d
-    · simp [a, b, h.mpr (Or.inr b)]
+    · rw [if_neg a, if_pos b, if_pos (h.mpr (Or.inr b))]
     · have : ¬ ((ebcdic1047_EncodeLength_guards maxLen n d).any id = true) := fun hh => by
         rcases h.mp hh with x | x <;> contradiction
-      simp [a, b, this]
+      rw [if_neg a, if_neg b, if_neg this]
 
-/-- `bcdVarPrefixer.EncodeLength` -/
+theorem bcd_enc_iff (maxLen n d : Nat) (hd : 1 ≤ d) :
+    (bcd_EncodeLength_guards maxLen n d).any id = true ↔ (n > maxLen ∨ n ≥ 10 ^ d) := by
+  have hi := itoaLen_gt_iff n d hd
+  unfold bcd_EncodeLength_guards
+  guards_to_prop
+  constructor
+  · intro h
+    rcases (show ((n : Int) > (maxLen : Int)) ∨ (itoaLen (n : Int) > (d : Int)) by omega) with h1 | h1
+    · exact Or.inl (by omega)
+    · exact Or.inr (hi.mp h1)
+  · intro h
+    rcases h with h | h
+    · have : (n : Int) > (maxLen : Int) := by omega
+      omega
+    · have := hi.mpr h
+      omega
+
+/-- `bcd` variable-length prefixer, `EncodeLength` -/
 theorem bcd_encodeLength_guarded (maxLen n d : Nat) (hd : 1 ≤ d) :
     encodeLength (.var .bcd d) maxLen n =
       if (bcd_EncodeLength_guards maxLen n d).any id then .err else Enc.encode .bcd (decString d n) := by
-  have h := dec_guards_iff bcd_EncodeLength_guards maxLen n d hd rfl
+  have h := bcd_enc_iff maxLen n d hd
   simp only [encodeLength]
   by_cases a : n > maxLen
-  · simp [a, h.mpr (Or.inl a)]
+  · rw [if_pos a, if_pos (h.mpr (Or.inl a))]
   · by_cases b : n ≥ 10 ^ d
-    · simp [a, b, h.mpr (Or.inr b)]
+    · rw [if_neg a, if_pos b, if_pos (h.mpr (Or.inr b))]
     · have : ¬ ((bcd_EncodeLength_guards maxLen n d).any id = true) := fun hh => by
         rcases h.mp hh with x | x <;> contradiction
-      simp [a, b, this]
+      rw [if_neg a, if_neg b, if_neg this]
 
 /-! ### decimal prefixers: DecodeLength -/
 
-/-- what the source's three conditions decide, once the digits have been read as the number `v` -/
-theorem finishDec_guarded (maxLen : Nat) (ds : Bytes) (read dlen digits : Nat) (v : Int)
-    (ha : atoi? ds = some v) (hlen : ¬ dlen < digits) :
-    finishDec maxLen ds read =
-      if ([decide ((dlen : Int) < (digits : Int)), decide (v < 0), decide (v > (maxLen : Int))]).any id
-      then .err else .ok (v.toNat, read) := by
-  have h0 : ¬ ((dlen : Int) < (digits : Int)) := by omega
-  simp only [finishDec, ha, List.any_cons, List.any_nil, id, Bool.or_false, Bool.or_eq_true,
-    decide_eq_true_eq, h0, false_or]
+/-- the model's `finishDec` once the digits have been read as the number `v` -/
+theorem finishDec_model (maxLen : Nat) (ds : Bytes) (read : Nat) (v : Int) (ha : atoi? ds = some v) :
+    finishDec maxLen ds read = if (v < 0 ∨ v > (maxLen : Int)) then .err else .ok (v.toNat, read) := by
+  simp only [finishDec, ha]
   by_cases hv : v < 0
   · simp [hv]
   · have : (v.toNat > maxLen) ↔ (v > (maxLen : Int)) := by omega
     by_cases hm : v.toNat > maxLen
     · simp [hv, hm, this.mp hm]
-    · have : ¬ (v > (maxLen : Int)) := fun h => hm (this.mpr h)
-      simp [hv, hm, this]
+    · have h2 : ¬ (v > (maxLen : Int)) := fun h => hm (this.mpr h)
+      simp [hv, hm, h2]
+
+theorem ascii_dec_iff (maxLen dlen d : Nat) (v : Int) :
+    (ascii_DecodeLength_guards maxLen dlen d v).any id = true ↔ (dlen < d ∨ v < 0 ∨ v > (maxLen : Int)) := by
+  unfold ascii_DecodeLength_guards; guards_to_prop <;> guards_done
+theorem ebcdic_dec_iff (maxLen dlen d : Nat) (v : Int) :
+    (ebcdic_DecodeLength_guards maxLen dlen d v).any id = true ↔ (dlen < d ∨ v < 0 ∨ v > (maxLen : Int)) := by
+  unfold ebcdic_DecodeLength_guards; guards_to_prop <;> guards_done
+theorem ebcdic1047_dec_iff (maxLen dlen d : Nat) (v : Int) :
+    (ebcdic1047_DecodeLength_guards maxLen dlen d v).any id = true ↔ (dlen < d ∨ v < 0 ∨ v > (maxLen : Int)) := by
+  unfold ebcdic1047_DecodeLength_guards; guards_to_prop <;> guards_done
+theorem bcd_dec_iff (maxLen dlen d : Nat) (v : Int) :
+    (bcd_DecodeLength_guards maxLen dlen d v).any id = true ↔ (dlen < (d + 1) / 2 ∨ v > (maxLen : Int)) := by
+  unfold bcd_DecodeLength_guards; guards_to_prop <;> guards_done
+
+/-- shared shape of the decimal decoders: too short, or what `finishDec` refuses -/
+theorem dec_decode_shape (maxLen width read dlen : Nat) (ds : Bytes) (v : Int) (ha : atoi? ds = some v)
+    (g : Bool) (hg : g = true ↔ (dlen < width ∨ v < 0 ∨ v > (maxLen : Int))) :
+    (if dlen < width then (.err : Res (Nat × Nat)) else finishDec maxLen ds read) =
+      if g then .err else .ok (v.toNat, read) := by
+  rw [finishDec_model maxLen ds read v ha]
+  by_cases hl : dlen < width
+  · rw [if_pos hl, if_pos (hg.mpr (Or.inl hl))]
+  · by_cases hv : v < 0 ∨ v > (maxLen : Int)
+    · rw [if_neg hl, if_pos hv, if_pos (hg.mpr (by rcases hv with h | h; exact Or.inr (Or.inl h); exact Or.inr (Or.inr h)))]
+    · have : ¬ (g = true) := fun h => by
+        rcases hg.mp h with x | x | x
+        · exact hl x
+        · exact hv (Or.inl x)
+        · exact hv (Or.inr x)
+      rw [if_neg hl, if_neg hv, if_neg this]
 
 /-- `asciiVarPrefixer.DecodeLength` -/
 theorem ascii_decodeLength_guarded (maxLen d : Nat) (data : Bytes) (v : Int)
@@ -117,35 +203,23 @@ theorem ascii_decodeLength_guarded (maxLen d : Nat) (data : Bytes) (v : Int)
     decodeLength (.var .ascii d) maxLen data =
       if (ascii_DecodeLength_guards maxLen data.length d v).any id then .err else .ok (v.toNat, d) := by
   simp only [decodeLength]
-  by_cases hl : data.length < d
-  · have : ((data.length : Int) < (d : Int)) := by omega
-    simp [hl, ascii_DecodeLength_guards, this]
-  · simp only [hl, if_false]
-    exact finishDec_guarded maxLen _ d data.length d v ha hl
+  exact dec_decode_shape maxLen d d data.length _ v ha _ (ascii_dec_iff maxLen data.length d v)
 
 /-- `ebcdicVarPrefixer.DecodeLength` (after the EBCDIC decoder returned the digits `ds`) -/
 theorem ebcdic_decodeLength_guarded (maxLen d : Nat) (data ds : Bytes) (r : Nat) (v : Int)
     (he : Enc.decode .ebcdic (data.take d) d = .ok (ds, r)) (ha : atoi? ds = some v) :
     decodeLength (.var .ebcdic d) maxLen data =
       if (ebcdic_DecodeLength_guards maxLen data.length d v).any id then .err else .ok (v.toNat, d) := by
-  simp only [decodeLength]
-  by_cases hl : data.length < d
-  · have : ((data.length : Int) < (d : Int)) := by omega
-    simp [hl, ebcdic_DecodeLength_guards, this]
-  · simp only [hl, if_false, he]
-    exact finishDec_guarded maxLen _ d data.length d v ha hl
+  simp only [decodeLength, he]
+  exact dec_decode_shape maxLen d d data.length _ v ha _ (ebcdic_dec_iff maxLen data.length d v)
 
 /-- `ebcdic1047Prefixer.DecodeLength` -/
 theorem ebcdic1047_decodeLength_guarded (maxLen d : Nat) (data ds : Bytes) (r : Nat) (v : Int)
     (he : Enc.decode .ebcdic1047 (data.take d) d = .ok (ds, r)) (ha : atoi? ds = some v) :
     decodeLength (.var .ebcdic1047 d) maxLen data =
       if (ebcdic1047_DecodeLength_guards maxLen data.length d v).any id then .err else .ok (v.toNat, d) := by
-  simp only [decodeLength]
-  by_cases hl : data.length < d
-  · have : ((data.length : Int) < (d : Int)) := by omega
-    simp [hl, ebcdic1047_DecodeLength_guards, this]
-  · simp only [hl, if_false, he]
-    exact finishDec_guarded maxLen _ d data.length d v ha hl
+  simp only [decodeLength, he]
+  exact dec_decode_shape maxLen d d data.length _ v ha _ (ebcdic1047_dec_iff maxLen data.length d v)
 
 /-- `bcdVarPrefixer.DecodeLength`: `bcd.EncodedLen(d)` bytes are needed; BCD digits are never
 negative, so the source has no sign check and the model's is vacuous (`0 ≤ v`) -/
@@ -153,37 +227,48 @@ theorem bcd_decodeLength_guarded (maxLen d : Nat) (data ds : Bytes) (r : Nat) (v
     (he : Enc.decode .bcd (data.take ((d + 1) / 2)) d = .ok (ds, r)) (ha : atoi? ds = some v) (hv : 0 ≤ v) :
     decodeLength (.var .bcd d) maxLen data =
       if (bcd_DecodeLength_guards maxLen data.length d v).any id then .err else .ok (v.toNat, (d + 1) / 2) := by
-  simp only [decodeLength]
-  have hc : ((data.length : Int) < ((d : Int) + 1) / 2) ↔ data.length < (d + 1) / 2 := by omega
-  by_cases hl : data.length < (d + 1) / 2
-  · simp [hl, bcd_DecodeLength_guards, hc.mpr hl]
-  · simp only [hl, if_false, he, finishDec, ha, bcd_DecodeLength_guards, List.any_cons, List.any_nil, id,
-      Bool.or_false, Bool.or_eq_true, decide_eq_true_eq]
-    have h1 : ¬ ((data.length : Int) < ((d : Int) + 1) / 2) := fun h => hl (hc.mp h)
-    have h2 : ¬ (v < 0) := by omega
-    have h3 : (v.toNat > maxLen) ↔ (v > (maxLen : Int)) := by omega
-    by_cases hm : v.toNat > maxLen
-    · simp [h1, h2, hm, h3.mp hm]
-    · have : ¬ (v > (maxLen : Int)) := fun h => hm (h3.mpr h)
-      simp [h1, h2, hm, this]
+  simp only [decodeLength, he]
+  refine dec_decode_shape maxLen ((d + 1) / 2) ((d + 1) / 2) data.length _ v ha _ ?_
+  rw [bcd_dec_iff]
+  constructor
+  · rintro (h | h)
+    · exact Or.inl h
+    · exact Or.inr (Or.inr h)
+  · rintro (h | h | h)
+    · exact Or.inl h
+    · omega
+    · exact Or.inr h
 
 /-! ### binary prefixers -/
+
+theorem binary_enc_iff (maxLen n d reslen : Nat) :
+    (binary_EncodeLength_guards maxLen n d reslen).any id = true ↔ (n > maxLen ∨ reslen > d) := by
+  unfold binary_EncodeLength_guards; guards_to_prop <;> guards_done
 
 /-- `binaryVarPrefixer.EncodeLength`: `len(res)` is the number of significant bytes -/
 theorem binary_encodeLength_guarded (maxLen n d : Nat) :
     encodeLength (.var .binary d) maxLen n =
       if (binary_EncodeLength_guards maxLen n d (beBytes n).length).any id then .err
       else .ok (bytesOfNats (List.replicate (d - (beBytes n).length) 0 ++ beBytes n)) := by
-  simp only [encodeLength, binary_EncodeLength_guards, List.any_cons, List.any_nil, id, Bool.or_false,
-    Bool.or_eq_true, decide_eq_true_eq, cast_gt]
+  have h := binary_enc_iff maxLen n d (beBytes n).length
+  simp only [encodeLength]
   by_cases a : n > maxLen
-  · simp [a]
+  · rw [if_pos a, if_pos (h.mpr (Or.inl a))]
   · by_cases b : (beBytes n).length > d
-    · simp [a, b]
-    · simp [a, b]
+    · rw [if_neg a, if_pos b, if_pos (h.mpr (Or.inr b))]
+    · have : ¬ ((binary_EncodeLength_guards maxLen n d (beBytes n).length).any id = true) := fun hh => by
+        rcases h.mp hh with x | x <;> contradiction
+      rw [if_neg a, if_neg b, if_neg this]
 
 theorem maxInt_val : (maxInt : Int) = 9223372036854775807 := by
   unfold maxInt; decide
+
+theorem binary_dec_iff (maxLen dlen d v : Nat) :
+    ((binary_DecodeLength_guards maxLen dlen d v).any id || (binary_bytesToInt_guards v).any id) = true ↔
+      (dlen < d ∨ v > maxInt ∨ v > maxLen) := by
+  have hm := maxInt_val
+  unfold binary_DecodeLength_guards binary_bytesToInt_guards
+  guards_to_prop <;> guards_done
 
 /-- `binaryVarPrefixer.DecodeLength` with `bytesToInt`: the prefix bytes as a big-endian number `v` -/
 theorem binary_decodeLength_guarded (maxLen d : Nat) (data : Bytes) :
@@ -191,42 +276,49 @@ theorem binary_decodeLength_guarded (maxLen d : Nat) (data : Bytes) :
       if (binary_DecodeLength_guards maxLen data.length d (beValue (data.take d))).any id ||
          (binary_bytesToInt_guards (beValue (data.take d))).any id
       then .err else .ok (beValue (data.take d), d) := by
-  have hm : ((beValue (data.take d) : Int) > 9223372036854775807) ↔ beValue (data.take d) > maxInt := by
-    rw [← maxInt_val]; omega
-  simp only [decodeLength, binary_DecodeLength_guards, binary_bytesToInt_guards, List.any_cons, List.any_nil, id,
-    Bool.or_false, Bool.or_eq_true, decide_eq_true_eq, cast_gt, cast_lt, hm]
+  have h := binary_dec_iff maxLen data.length d (beValue (data.take d))
+  simp only [decodeLength]
   by_cases a : data.length < d
-  · simp [a]
+  · rw [if_pos a, if_pos (h.mpr (Or.inl a))]
   · by_cases b : beValue (data.take d) > maxInt
-    · simp [a, b]
+    · rw [if_neg a, if_pos b, if_pos (h.mpr (Or.inr (Or.inl b)))]
     · by_cases c : beValue (data.take d) > maxLen
-      · simp [a, b, c]
-      · simp [a, b, c]
+      · rw [if_neg a, if_neg b, if_pos c, if_pos (h.mpr (Or.inr (Or.inr c)))]
+      · have : ¬ (((binary_DecodeLength_guards maxLen data.length d (beValue (data.take d))).any id ||
+            (binary_bytesToInt_guards (beValue (data.take d))).any id) = true) := fun hh => by
+          rcases h.mp hh with x | x | x <;> contradiction
+        rw [if_neg a, if_neg b, if_neg c, if_neg this]
 
 /-! ### hex prefixers -/
 
-theorem hex_bound_cast (n d : Nat) :
-    ((n : Int) > (1 * 2 ^ ((d : Int) * 8).toNat - 1)) ↔ n > 2 ^ (d * 8) - 1 := by
+theorem hex_enc_iff (maxLen n d : Nat) :
+    (hex_EncodeLength_guards maxLen n d).any id = true ↔ (n > maxLen ∨ n > 2 ^ (d * 8) - 1) := by
   have h1 : ((d : Int) * 8).toNat = d * 8 := by omega
-  rw [h1]
   have hp : 1 ≤ 2 ^ (d * 8) := Nat.one_le_two_pow
   have hc : ((2 : Int) ^ (d * 8)) = ((2 ^ (d * 8) : Nat) : Int) := by
     rw [Int.natCast_pow]; rfl
-  rw [hc]
-  omega
+  unfold hex_EncodeLength_guards
+  simp only [h1, hc]
+  guards_to_prop <;> guards_done
 
 /-- `hexVarPrefixer.EncodeLength` -/
 theorem hex_encodeLength_guarded (maxLen n d : Nat) :
     encodeLength (.var .hex d) maxLen n =
       if (hex_EncodeLength_guards maxLen n d).any id then .err
       else .ok ((fixedHex (2 * d) n).map hexDigitUpper) := by
-  simp only [encodeLength, hex_EncodeLength_guards, List.any_cons, List.any_nil, id, Bool.or_false,
-    Bool.or_eq_true, decide_eq_true_eq, cast_gt, hex_bound_cast]
+  have h := hex_enc_iff maxLen n d
+  simp only [encodeLength]
   by_cases a : n > maxLen
-  · simp [a]
+  · rw [if_pos a, if_pos (h.mpr (Or.inl a))]
   · by_cases b : n > 2 ^ (d * 8) - 1
-    · simp [a, b]
-    · simp [a, b]
+    · rw [if_neg a, if_pos b, if_pos (h.mpr (Or.inr b))]
+    · have : ¬ ((hex_EncodeLength_guards maxLen n d).any id = true) := fun hh => by
+        rcases h.mp hh with x | x <;> contradiction
+      rw [if_neg a, if_neg b, if_neg this]
+
+theorem hex_dec_iff (maxLen dlen d v : Nat) :
+    (hex_DecodeLength_guards maxLen dlen d v).any id = true ↔ (dlen < 2 * d ∨ v > maxLen) := by
+  unfold hex_DecodeLength_guards; guards_to_prop <;> guards_done
 
 /-- `hexVarPrefixer.DecodeLength` (after `strconv.ParseUint` read the digits `ds`) -/
 theorem hex_decodeLength_guarded (maxLen d : Nat) (data : Bytes) (ds : List Nat)
@@ -234,14 +326,27 @@ theorem hex_decodeLength_guarded (maxLen d : Nat) (data : Bytes) (ds : List Nat)
     decodeLength (.var .hex d) maxLen data =
       if (hex_DecodeLength_guards maxLen data.length d (ofDigits 16 ds)).any id then .err
       else .ok (ofDigits 16 ds, 2 * d) := by
-  have hc : ((data.length : Int) < (d : Int) * 2) ↔ data.length < 2 * d := by omega
-  simp only [decodeLength, hex_DecodeLength_guards, List.any_cons, List.any_nil, id, Bool.or_false,
-    Bool.or_eq_true, decide_eq_true_eq, cast_gt, hc]
+  have h := hex_dec_iff maxLen data.length d (ofDigits 16 ds)
+  simp only [decodeLength]
   by_cases a : data.length < 2 * d
-  · simp [a]
-  · simp only [a, if_false, hp, false_or]
+  · rw [if_pos a, if_pos (h.mpr (Or.inl a))]
+  · rw [if_neg a]
+    simp only [hp]
+    by_cases c : ofDigits 16 ds > maxLen
+    · rw [if_pos c, if_pos (h.mpr (Or.inr c))]
+    · have : ¬ ((hex_DecodeLength_guards maxLen data.length d (ofDigits 16 ds)).any id = true) := fun hh => by
+        rcases h.mp hh with x | x <;> contradiction
+      rw [if_neg c, if_neg this]
 
 /-! ### BER-TLV -/
+
+theorem ber_enc_guards_iff (maxLen n : Nat) :
+    (ber_EncodeLength_guards maxLen n).any id = true ↔ (maxLen ≠ 0 ∧ n > maxLen) := by
+  unfold ber_EncodeLength_guards; guards_to_prop <;> guards_done
+
+theorem ber_enc_exits_iff (maxLen n : Nat) (hg : ¬ (maxLen ≠ 0 ∧ n > maxLen)) :
+    (ber_EncodeLength_exits maxLen n).any id = true ↔ n ≤ 127 := by
+  unfold ber_EncodeLength_exits; guards_to_prop <;> guards_done
 
 /-- `berTLVPrefixer.EncodeLength`: the maximum check (disabled by `maxLen = 0`), then the short
 form up to 127 -/
@@ -250,22 +355,37 @@ theorem ber_encodeLength_guarded (maxLen n : Nat) :
       if (ber_EncodeLength_guards maxLen n).any id then .err
       else if (ber_EncodeLength_exits maxLen n).any id then .ok [UInt8.ofNat n]
       else .ok (UInt8.ofNat (128 + (beBytes n).length) :: bytesOfNats (beBytes n)) := by
-  have h0 : ¬ ((n : Int) < 0) := by omega
-  have h1 : ((maxLen : Int) ≠ 0) ↔ maxLen ≠ 0 := by omega
-  have h2 : ((n : Int) ≤ 127) ↔ n ≤ 127 := by omega
-  simp only [encodeLength, ber_EncodeLength_guards, ber_EncodeLength_exits, List.any_cons, List.any_nil, id,
-    Bool.or_false, Bool.or_eq_true, Bool.and_eq_true, decide_eq_true_eq, cast_gt, h0, or_false, h1, h2]
+  have h := ber_enc_guards_iff maxLen n
+  simp only [encodeLength]
+  by_cases a : maxLen ≠ 0 ∧ n > maxLen
+  · rw [if_pos a, if_pos (h.mpr a)]
+  · have h2 := ber_enc_exits_iff maxLen n a
+    rw [if_neg a, if_neg (fun x => a (h.mp x))]
+    by_cases b : n ≤ 127
+    · rw [if_pos b, if_pos (h2.mpr b)]
+    · rw [if_neg b, if_neg (fun x => b (h2.mp x))]
+
+theorem ber_dec_iff (maxLen first v : Nat) :
+    (ber_DecodeLength_guards maxLen first v).any id = true ↔
+      ((first < 128 ∧ maxLen ≠ 0 ∧ first > maxLen) ∨ v > maxInt ∨ (maxLen ≠ 0 ∧ v > maxLen)) := by
+  have hm := maxInt_val
+  unfold ber_DecodeLength_guards; guards_to_prop <;> guards_done
 
 /-- `berTLVPrefixer.DecodeLength`, short form -/
 theorem ber_decodeLength_short_guarded (maxLen : Nat) (first : Byte) (rest : Bytes) (h : first.toNat < 128) :
     decodeLength .berTLV maxLen (first :: rest) =
-      if (ber_DecodeLength_guards maxLen first.toNat 0).any id then .err else .ok (first.toNat, 1) := by
-  have h1 : ((maxLen : Int) ≠ 0) ↔ maxLen ≠ 0 := by omega
-  have h2 : ((first.toNat : Int) < 128) := by omega
-  have h3 : ¬ ((0 : Int) > (maxLen : Int)) := by omega
-  simp only [decodeLength, h, if_true, ber_DecodeLength_guards, List.any_cons, List.any_nil, id, Bool.or_false,
-    Bool.or_eq_true, Bool.and_eq_true, decide_eq_true_eq, cast_gt, h1, h2, true_and, h3, and_false, or_false]
-  simp
+      if (ber_DecodeLength_guards maxLen first.toNat (0 : Nat)).any id then .err else .ok (first.toNat, 1) := by
+  have hi := ber_dec_iff maxLen first.toNat 0
+  simp only [decodeLength, h, if_true]
+  by_cases a : maxLen ≠ 0 ∧ first.toNat > maxLen
+  · rw [if_pos a, if_pos (hi.mpr (Or.inl ⟨h, a.1, a.2⟩))]
+  · have : ¬ ((ber_DecodeLength_guards maxLen first.toNat (0 : Nat)).any id = true) := fun hh => by
+      rcases hi.mp hh with ⟨_, x, y⟩ | x | ⟨_, x⟩
+      · exact a ⟨x, y⟩
+      · have : (0 : Nat) ≤ maxInt := Nat.zero_le _
+        omega
+      · omega
+    rw [if_neg a, if_neg this]
 
 /-- `berTLVPrefixer.DecodeLength`, long form with all `k` length bytes present: `v` is their value -/
 theorem ber_decodeLength_long_guarded (maxLen : Nat) (first : Byte) (rest : Bytes) (h : ¬ first.toNat < 128)
@@ -273,22 +393,19 @@ theorem ber_decodeLength_long_guarded (maxLen : Nat) (first : Byte) (rest : Byte
     decodeLength .berTLV maxLen (first :: rest) =
       if (ber_DecodeLength_guards maxLen first.toNat (beValue (rest.take (first.toNat - 128)))).any id
       then .err else .ok (beValue (rest.take (first.toNat - 128)), 1 + (first.toNat - 128)) := by
-  have h1 : ((maxLen : Int) ≠ 0) ↔ maxLen ≠ 0 := by omega
-  have h2 : ¬ ((first.toNat : Int) < 128) := by omega
-  have hm : ((beValue (rest.take (first.toNat - 128)) : Int) > 9223372036854775807) ↔
-      beValue (rest.take (first.toNat - 128)) > maxInt := by
-    rw [← maxInt_val]; omega
-  have hm' : ((beValue (rest.take (first.toNat - 128)) : Int) ≤ 9223372036854775807) ↔
-      ¬ beValue (rest.take (first.toNat - 128)) > maxInt := by
-    rw [← maxInt_val]; omega
-  simp only [decodeLength, h, if_false, hk, ber_DecodeLength_guards, List.any_cons, List.any_nil, id, Bool.or_false,
-    Bool.or_eq_true, Bool.and_eq_true, Bool.not_eq_true', decide_eq_true_eq, decide_eq_false_iff_not, cast_gt,
-    h1, h2, false_and, false_or, hm, hm']
+  have hi := ber_dec_iff maxLen first.toNat (beValue (rest.take (first.toNat - 128)))
+  simp only [decodeLength, h, if_false, hk]
   by_cases b : beValue (rest.take (first.toNat - 128)) > maxInt
-  · simp [b]
+  · rw [if_pos b, if_pos (hi.mpr (Or.inr (Or.inl b)))]
   · by_cases c : maxLen ≠ 0 ∧ beValue (rest.take (first.toNat - 128)) > maxLen
-    · simp [b, c]
-    · simp [b, c]
+    · rw [if_neg b, if_pos c, if_pos (hi.mpr (Or.inr (Or.inr c)))]
+    · have : ¬ ((ber_DecodeLength_guards maxLen first.toNat (beValue (rest.take (first.toNat - 128)))).any id = true) :=
+        fun hh => by
+          rcases hi.mp hh with ⟨x, _⟩ | x | x
+          · exact h x
+          · exact b x
+          · exact c x
+      rw [if_neg b, if_neg c, if_neg this]
 
 /-! non-vacuity -/
 example : (ascii_EncodeLength_guards 999 99 2).any id = false ∧ (ascii_EncodeLength_guards 999 100 2).any id = true ∧
